@@ -275,12 +275,48 @@ class _Only:
         pass
 
 
+def member_hook_fn(prog):
+    """the function that builds the hook of a method call `recv.m(args)`: it asks for the emitted call
+    (replace_call_callee_and_args) and inserts the receiver as its first argument"""
+    cands = []
+    for f in xform_fns(prog):
+        if not any(True for _ in hir.calls_in(f.body, name="replace_call_callee_and_args")):
+            continue
+        if any(hir.lit_value(hir.call_args(n)[1]) == 0 for n in hir.calls_in(f.body, name="insert") if len(hir.call_args(n)) > 2):
+            cands.append(f)
+    if len(cands) != 1:
+        raise AnchorMissing("the function building the member-call hook (%d candidates)" % len(cands))
+    return cands[0]
+
+
+def _emitted_call_args(f, recv):
+    """is recv `<L>.args` with L bound to the result of replace_call_callee_and_args?"""
+    r = hir.peel(recv)
+    if r.get("k") != "Field" or r["field"] != "args":
+        return False
+    l = hir.local_of(r["x"])
+    b = f.bindings().get(l[0]) if l else None
+    init = b["origin"][1] if b and b["origin"][0] == "let" else None
+    return init is not None and any(hir.is_call(x) and hir.callee_name(x) == "replace_call_callee_and_args" for x in hir.walk(init))
+
+
+def _is_apply_operand(prog, x):
+    if x == ("lit", "apply"):
+        return True
+    if isinstance(x, str) and "::" in x:
+        try:
+            return prog.const_str(x.split("::")[-1]) == "apply"
+        except AnchorMissing:
+            return False
+    return False
+
+
 def rule_call_signature(check):
     R = "CALL-SIGNATURE"
     check.rule(R, "method hooks receive (result, function actually invoked, receiver, arguments..): `arguments` is filled in the order callee, receiver, call arguments; the emitted `.call/.apply` is invoked on the very temporary that was pushed as callee with the very receiver that was pushed")
     prog = check.prog
     pv = Prov(prog)
-    f = prog.fn("call_expr_transform::replace_call_expr_if_csi_method_with_member")
+    f = member_hook_fn(prog)
     names = [hir.pat_bindings(p["pat"])[0]["name"] if hir.pat_bindings(p["pat"]) else "?" for p in f.rec["params"]]
     arg_local = None
     for lid, b in f.bindings().items():
@@ -299,8 +335,12 @@ def rule_call_signature(check):
         return hir.callee_name(n) or n.get("method")
     seq = [ev_name(n) for n in events if ev_name(n) != "get_dd_paren_expr"]
     # the two get_ident_used_in_assignation sites are in exclusive match arms
-    want_a = ["get_ident_used_in_assignation", "get_ident_used_in_assignation", "push", "replace_call_callee_and_args"]
-    excl = len(events) >= 2 and fanout.exclusive(f, events[0], events[1])
+    want_a = ["get_ident_used_in_assignation", "push", "replace_call_callee_and_args"]
+    # the callee temporary may be requested in two exclusive arms (prototype / property) or once
+    excl = True
+    if seq[:2] == ["get_ident_used_in_assignation", "get_ident_used_in_assignation"]:
+        excl = fanout.exclusive(f, events[0], events[1])
+        seq = seq[1:]
     check.expect(seq == want_a and excl, R, R + "/order", hir.loc(f.rec), "arguments <- callee temp, receiver, then the call arguments", "effects on `arguments` are %s (exclusive callee arms: %s)" % (seq, excl))
     cal = [n for n in events if ev_name(n) == "get_ident_used_in_assignation"]
     for n in cal:
@@ -349,7 +389,7 @@ def rule_call_signature(check):
     ok = False
     for n in ifs:
         at = gate.atom(g, {"t": "bool", "e": n["cond"], "v": True})
-        if at[0] == "eq" and at[3] is True and ("lit", "apply") in (at[1], at[2]):
+        if at[0] == "eq" and at[3] is True and (_is_apply_operand(prog, at[1]) or _is_apply_operand(prog, at[2])):
             th = (_ctor_name(hir.peel(n["then"])) or "").split("::")[-1]
             el = (_ctor_name(hir.peel(n["else"])) or "").split("::")[-1] if "else" in n else ""
             ok = th == "Yes" and el == "No"
@@ -358,6 +398,16 @@ def rule_call_signature(check):
     if pn and pn[0]["origin"][1] is not None:
         init = hir.peel(pn[0]["origin"][1])
         dflt = hir.is_call(init) and (hir.callee_name(init) or init.get("method")) == "unwrap_or" and hir.lit_value(hir.call_args(init)[1]) == "call"
+    if not pn:
+        # the name is a plain &str parameter: there is no default here, every caller says which one
+        # (checked by the call-or-apply flow below)
+        prm = [b for b in g.bindings().values() if b["origin"][0] == "param" and "str" in (b.get("ty") or "")]
+        cmp_on_param = False
+        for n in ifs:
+            at = gate.atom(g, {"t": "bool", "e": n["cond"], "v": True})
+            if at[0] == "eq" and (_is_apply_operand(prog, at[1]) or _is_apply_operand(prog, at[2])):
+                cmp_on_param = any(isinstance(x, str) and x.split("#")[0] in {b["name"] for b in prm} for x in (at[1], at[2]))
+        dflt = cmp_on_param
     check.expect(ok and dflt, R, R + "/expand-arrays", hir.loc(g.rec), "array arguments are expanded iff the call goes through .apply (default .call)", "array expansion is not tied to `.apply` (default `.call`): the hook's argument list does not match the call")
     # ... and nowhere else: every other site hands on its own parameter or says No
     yes_sites = _enum_value_sites(prog, "ExpandArrays::Yes")
@@ -410,9 +460,33 @@ def rule_call_signature(check):
                 ok_ = bool(os_) and all(p_ and p_[-1] == "sym" for r, p_ in os_)
                 check.expect(ok_, R, key_, hir.loc(n_), "prototype path passes the original property name", "on the `.call`/`.apply` path %s passes %s instead of the original property name: `.apply` is emitted as `.call`" % (fn_.name, sorted(origin_str(o) for o in os_)))
             else:
-                none_ = all(r[0] == "ctor" and r[1].split("::")[-1] == "None" for r, p_ in os_)
+                def _is_call_const(r):
+                    if r[0] != "const":
+                        return False
+                    try:
+                        return prog.const_str(r[1].split("::")[-1]) == "call"
+                    except AnchorMissing:
+                        return False
+
+                def _carried(r, p_):
+                    # the name travels inside a parameter of this function (a small struct / enum of the crate)
+                    return r[0] == "param" and r[1] == fn_.def_path and any(str(q).split(".")[-1] == "call_or_apply" for q in p_)
+
+                none_ = bool(os_) and all((r[0] == "ctor" and r[1].split("::")[-1] == "None") or _is_call_const(r) or (r[0] == "lit" and r[1] == "call") or _carried(r, p_) for r, p_ in os_)
                 check.expect(none_, R, key_, hir.loc(n_), "plain path: default `.call` with the receiver inserted", "%s passes %s as call/apply name" % (fn_.name, sorted(origin_str(o) for o in os_)))
-    check.floor(R, "call_or_apply hand-overs", n_cop, 4)
+    # where the name is put into such a carrier it is the original property name
+    for fn_ in prog.user_fns:
+        if "call_expr_transform" not in fn_.def_path:
+            continue
+        for n_ in fn_.nodes():
+            if n_.get("k") == "Struct" and not (n_["res"].get("path") or "").startswith("swc_"):
+                for fl in n_["fields"]:
+                    if fl["name"] == "call_or_apply":
+                        n_cop += 1
+                        os_ = pv.origins(fn_, fl["e"])
+                        ok_ = bool(os_) and all((p_ and p_[-1] == "sym") or (r[0] == "param" and r[1] == fn_.def_path and cop_index(fn_) == r[2]) for r, p_ in os_)
+                        check.expect(ok_, R, "%s/call-or-apply/%s/carrier" % (R, fn_.name), hir.loc(n_), "the carried name is the original property name", "%s stores %s as the `.call`/`.apply` name" % (fn_.name, sorted(origin_str(o) for o in os_)))
+    check.floor(R, "call_or_apply hand-overs", n_cop, 3)
     # bare calls: [fn ident, undefined] then the arguments
     h = prog.fn("call_expr_transform::replace_call_expr_if_csi_method_without_callee")
     al = [lid for lid, b in h.bindings().items() if b["name"] == "arguments" and b["origin"][0] == "let"]
@@ -560,7 +634,7 @@ def rule_order(check):
             n_scanned += 1
             if name in REORDER:
                 key = "%s/reorder/%s/%s" % (R, f.name, name)
-                if f.name == "replace_call_expr_if_csi_method_with_member" and name == "insert" and hir.lit_value(hir.call_args(n)[1]) == 0:
+                if name == "insert" and hir.lit_value(hir.call_args(n)[1]) == 0 and _emitted_call_args(f, n["recv"]):
                     check.ok(R, key, hir.loc(n), "reviewed: the this-argument is inserted at index 0 of the emitted .call (CALL-SIGNATURE checks what is inserted)")
                 else:
                     check.bad(R, key, hir.loc(n), "%s() on an operand collection changes the order in which operands are evaluated or reported" % name)
@@ -836,7 +910,22 @@ def rule_fanout(check):
 
 
 def _fanout_exception(prog, f, a, b, place):
-    if f.name == "replace_call_expr_if_csi_method_with_member" and place == "expr":
+    locs0 = {hir.local_of(hir.call_args(x)[0]) for x in (a, b)}
+    l0 = list(locs0)[0] if len(locs0) == 1 and None not in locs0 else None
+    b0 = f.bindings().get(l0[0]) if l0 else None
+    def _from_temp_helper(e, depth=0):
+        for x in hir.walk(e):
+            if hir.is_call(x) and (hir.callee_name(x) or x.get("method")) in ("get_ident_used_in_assignation", "get_temporal_ident_used_in_assignation"):
+                return True
+            lx = hir.local_of(x) if x.get("k") == "Path" else None
+            if lx and depth < 2:
+                bx = f.bindings().get(lx[0])
+                if bx and bx["origin"][0] == "let" and bx["origin"][1] is not None and not f.assignments_to(lx[0]) and _from_temp_helper(bx["origin"][1], depth + 1):
+                    return True
+        return False
+
+    standin = bool(b0) and b0["origin"][0] == "let" and b0["origin"][1] is not None and _from_temp_helper(b0["origin"][1])
+    if standin:
         # both copies are of `ident_replacement`, which is the receiver itself only when no temporary was
         # made, i.e. (side condition) only when the receiver is a literal
         g = prog.fn("IdentProvider::get_temporal_ident_used_in_assignation")
